@@ -1,6 +1,7 @@
 """Per-harness options (solver schedule, axiom groups, stretch obligations, fixed validation vectors)."""
 OPTS = {
     'C02': {},
+    'C07': {'*': {'pi_symbolic': True}},
     'C15': {'*': {'pi_symbolic': True, 'feas_timeout': 1},
             'c15_from_arc_parallel_tolerance': {'pi_symbolic': True, 'feas_timeout': 1, 'vectors': [[1.0, 0.0, 0.0, 2.0, 0.0, 0.0], [1.0, 0.0, 0.0, -1.0, 0.0, 0.0], [0.5, 0.25, 0.0, 1.0, 0.5, 0.0]]}},
     'C10': {'*': {'pi_symbolic': True}},
